@@ -65,6 +65,24 @@ PLAN["C18"] = {"kernels": [], "functions": ["awkward_regularize_rangeslice"], "k
                "extra": [_partition_engine], "trusted": _partition_mod.TRUSTED}
 
 
+def _sorting_engine(pid, tier, seed, known):
+    from . import sorting
+    return sorting.engine(pid, tier, seed, known, which=("sorts", "strings"))
+
+
+def _combinations_engine(pid, tier, seed, known):
+    from . import sorting
+    return sorting.engine(pid, tier, seed, known, which=("combinations",))
+
+
+SORT_TRUST = ["std::sort / std::stable_sort / std::iota are external: given a strict weak order (proved here for every comparator instantiation) they return a sorted permutation, stable_sort a stable one",
+              "the sorting cores (awkward_sort, awkward_argsort, hand-written awkward_quick_sort / quick_argsort, the std::string based string sorts) are outside the translator and are only checked by the BOUNDED stand-ins listed under coverage.bounded; those are not proofs"]
+PLAN["C06"] = {"kernels": [r"sorting_ranges", r"rearrange_shifted", r"local_preparenext", r"awkward_unique", r"subrange_equal", r"unique_strings"],
+               "kinds": ["S", "E", "F"], "extra": [_sorting_engine], "trusted": KERNEL_TRUST + SORT_TRUST}
+PLAN["C07"] = {"kernels": [r"combinations"], "kinds": ["S", "E", "F"], "extra": [_combinations_engine],
+               "trusted": KERNEL_TRUST + ["enumeration order of awkward_ListArray_combinations / awkward_RegularArray_combinations_64 (recursive helper over T**) is outside the translator: BOUNDED stand-in against itertools only; ak.cartesian is Python glue, not covered"]}
+
+
 def symbols_for(P, KI):
     pats = [re.compile(p) for p in P.get("kernels", [])]
     out = []
